@@ -18,7 +18,7 @@ IPF_TRACE_CFG = "SPECIFICATION TSpec\nCONSTRAINT HWM\nPOSTCONDITION Accepted\n"
 def run(ctx):
     ctx.cov["rule"] = ("states = TLC: decision table of the IP filter over all small allow/block lists (implementation-shaped switch = "
                        "contract, chain = conjunction) and the router with filters at three levels, cache and filter-less twin "
-                       "(C05 (i)-(ii) after any history and evictions, repaired cache design); behaviours = every decision vector of the "
+                       "(C05 (i)-(iii) after any history and evictions, repaired cache design); behaviours = every decision vector of the "
                        "small model replayed on the real ipfilter.IPFilter, and TLC -simulate behaviours replayed on four real muxes "
                        "(filters / filter-less twin x cache off / on); traces = recorded decisions of random real IPv4/IPv6 filters and "
                        "recorded request sequences of the four muxes, validated by TLC; non-trivial = distinct (membership pattern, "
@@ -27,6 +27,8 @@ def run(ctx):
                         "several is third-party)", "addresses parse; IPv4-mapped IPv6 addresses excluded",
                         "bits of recorded addresses/prefixes computed with net/netip",
                         "C05 (ii) read as: routed like the filter-less twin (same cache size, same history) or as the routing rules say",
+                        "C05 (iii): whether the filter of a host-matching rule passed over on the way to the route 'applies' is the server's "
+                        "choice, shown by its cache-less search; the cached server after any history must make the same choice",
                         "a client denied only by a filter of a rule/path the request does not belong to may be refused or routed (iii)"]
     if ctx.phase("ipf"):
         _ipf(ctx)
@@ -108,8 +110,8 @@ def _mc(ctx):
     uni = "C05InitQuick" if ctx.quick else "C12InitQuick"
     reqs = "C12ReqsA" if ctx.quick else "C12Reqs"
     r = ctx.tlc_mc("HttpRouter_MC", R.mc_cfg(uni, reqs, 2, True, "IPFilterRespected", twin=True, variant=R.REPAIRED),
-                   label="C05 (i)-(ii), repaired cache design, cache on, filter-less twin, %s" % uni, timeout=1800)
-    ctx.log("C05 (i)-(ii) hold on the implementation-shaped router with cache (repaired design): %d transitions" % r.generated)
+                   label="C05 (i)-(iii), repaired cache design, cache on, filter-less twin, %s" % uni, timeout=1800)
+    ctx.log("C05 (i)-(iii) hold on the implementation-shaped router with cache (repaired design): %d transitions" % r.generated)
     r = ctx.tlc_mc("HttpRouter_MC", R.mc_cfg("C12InitQuick" if ctx.quick else "C12InitFull", "C12Reqs", 1, False, "IPFilterRespected Transparent"),
                    label="C05 (i)-(ii) and the 403 rules, cache off", timeout=1800)
     ctx.log("C05 (i)-(ii) hold with the cache off: %d transitions" % r.generated)
@@ -129,6 +131,9 @@ def _what(clause, cache, q, o, z, c01, cul, own=None):
     route = R.show(c01) if c01 else ("entry %s" % own.get("pos") if own and own.get("code") == 0 else "none (%s)" % (own or {}).get("code"))
     if clause == "i":
         w += "the client is denied by a filter applying to the request (route per routing rules: %s)" % route
+    elif clause == "iii":
+        w += ("the client is denied by the filter of a host-matching rule ahead of its route (%s) and the same server without "
+              "route cache answers %s: the refusal depends on the cache / on earlier requests" % (route, R.show(z)))
     else:
         w += "the client is allowed by every filter, the filter-less twin answers %s, the routing rules say %s" % (R.show(z), route)
     if cul:
@@ -137,15 +142,18 @@ def _what(clause, cache, q, o, z, c01, cul, own=None):
 
 
 def _mbt(ctx):
-    nb = 600 if ctx.quick else 8000
+    nb = 800 if ctx.quick else 8000
     depth = 30 if ctx.quick else 40
     nreq = 7 if ctx.quick else 10
     behs = []
+    # the general universe and four focused ones; the fourth: a filtered rule that the request's host matches but that
+    # has no entry for it, ahead of the rule owning the route (C05 (iii))
     for k, (share, reqs, templates, shells, sfs, plans) in enumerate((
-            (0.3, "C12SimReqs", "C12SimTemplates", "C12SimShells", "C12SimServerFilters", "PlansC12"),
-            (0.2, "C12ReqsA", "C12HdrFocus", "C12Shells", "C12ServerFilters", "PlansHdrFocus"),
+            (0.2, "C12SimReqs", "C12SimTemplates", "C12SimShells", "C12SimServerFilters", "PlansC12"),
+            (0.15, "C12ReqsA", "C12HdrFocus", "C12Shells", "C12ServerFilters", "PlansHdrFocus"),
             (0.2, "C12SimReqs", "C12FilterFocus", "C12SimShells", "C12SimServerFilters", "PlansFilterFocus"),
-            (0.3, "C05FocusReqs", "C12FilterFocus", "C05FocusShells", "C12SimServerFilters", "PlansFilterFocus"))):
+            (0.2, "C05FocusReqs", "C12FilterFocus", "C05FocusShells", "C12SimServerFilters", "PlansFilterFocus"),
+            (0.25, "C12ReqsA", "C12RuleFocus", "C12FocusShells", "C12NoServerFilter", "PlansRuleFocus"))):
         behs += ctx.tlc_simulate("HttpRouter_Gen", R.gen_cfg(reqs, nreq, True, templates, shells, sfs, plans, twin=True),
                                  num=int(nb * share), depth=depth, timeout=1200, seed=ctx.seed * 10 + k)
     behs = [b for b in behs if b and b[0].get("a") == "cfg" and len(b) > 1]
@@ -164,15 +172,19 @@ def _mbt(ctx):
     s = summ[0]
     if s["rejected"]:
         ctx.inconclusive("C05: %d TLC-generated configurations were rejected by easegress' validation" % s["rejected"])
-    if s["denied"] < s["steps"] // 20 or s["allowed"] < s["steps"] // 20:
-        ctx.inconclusive("C05 replay is vacuous: %d requests, %d denied, %d allowed everywhere" % (s["steps"], s["denied"], s["allowed"]))
+    if s["denied"] < s["steps"] // 20 or s["allowed"] < s["steps"] // 20 or s["passed"] < s["steps"] // 100:
+        ctx.inconclusive("C05 replay is vacuous: %d requests, %d denied, %d allowed everywhere, %d denied by a passed-over rule only" % (
+            s["steps"], s["denied"], s["allowed"], s["passed"]))
     ctx.evals(s["steps"])
     ctx.traces(len(behs))
-    ctx.notes.append({"replay_requests": s["steps"], "denied_by_applying_filter": s["denied"], "allowed_everywhere": s["allowed"]})
+    ctx.notes.append({"replay_requests": s["steps"], "denied_by_applying_filter": s["denied"], "allowed_everywhere": s["allowed"],
+                      "denied_by_passed_over_rule_only": s["passed"]})
     for b in behs:
         cfg = b[0]["cfg"]
         for st in b[1:]:
             if st.get("a") == "req" and (st["den"] or not st["all"]):
+                if st.get("amb"):
+                    ctx.nontrivial({"amb": True, "own": st["own"]["code"], "exp": R.kind(st["exp"])})
                 own = st["own"]
                 lvl = {"srv": cfg["ipf"]["on"]}
                 if own["code"] == 0:
@@ -186,12 +198,13 @@ def _mbt(ctx):
     for m in [x for x in recs if x.get("k") == "mismatch"]:
         sig = _sig(m["clause"], m["cache"], m["q"], m.get("cul"), m.get("own"), m.get("cown"), m["exp"], m["o"])
         hit[jdump(sig)] = hit.get(jdump(sig), 0) + 1
-        ctx.violation(sig, _what(m["clause"], m["cache"], m["q"], m["o"], m["z"], m["c01"], m.get("cul")), m)
+        ctx.violation(sig, _what(m["clause"], m["cache"], m["q"], m["o"], m["ou"] if m["clause"] == "iii" else m["z"], m["c01"],
+                                 m.get("cul"), m.get("own")), m)
     ctx.notes.append({"replay_c05_failures": hit})
 
 
 def _tv(ctx):
-    ncfg, nreq = (60, 40) if ctx.quick else (1200, 60)
+    ncfg, nreq = (150, 40) if ctx.quick else (1200, 60)
     raw = ctx.path("c05_trace_raw.ndjson")
     rc, out = ctx.go_test(R.PKG, "^TestVerifC05Trace$", env={"VERIF_OUT": raw, "VERIF_N": ncfg, "VERIF_REQS": nreq}, timeout=1200)
     tp, ev, other = R.split_trace(ctx, raw, "c05_trace.ndjson")
@@ -223,6 +236,8 @@ def _tv(ctx):
                 continue
             code = o["code"]
             clause = "i" if rec["den"] and (code < 400 or code > 499 or (rec["own"]["code"] == 0 and code != 403)) else "ii"
+            if cache and rec.get("amb") and (code == 0) != (e["ou"]["code"] == 0):
+                clause, z = "iii", e["ou"]
             sig = _sig(clause, cache, e["q"], e.get("cul"), rec.get("own"), rec.get("cown"), rec["exp"], o)
             hit[jdump(sig)] = hit.get(jdump(sig), 0) + 1
             ctx.violation(sig, _what(clause, cache, e["q"], o, z, rec["exp"] if rec["all"] else None, e.get("cul"), rec.get("own")),
